@@ -90,3 +90,42 @@ def transports(effects, sending_only=True):
                 and e.target.name == 'write':
             out.append(e)
     return out
+
+
+# ====================================================================== the primitives themselves
+SERIAL_EXC = 'serial.SerialException'
+
+
+class PrimHooks(Hooks):
+    """Interpretation of ebb_serial.query / ebb_serial.command themselves: the port is `LPORT`,
+    every read yields a fresh bytes value reply#k, and (inject=True) every port call may raise
+    serial.SerialException."""
+
+    def __init__(self, inject=True):
+        self.inject = inject
+
+    def decide(self, cond, st):
+        if isinstance(cond, IsNone) and cond.v == LPORT:
+            return False
+        if isinstance(cond, Truthy) and cond.v == LPORT:
+            return True
+        return None
+
+    def may_raise(self, target, args, st, node):
+        if self.inject and isinstance(target, Bound) and target.obj == LPORT and \
+                target.name in PORT_IO:
+            return (SERIAL_EXC,)
+        return ()
+
+    def call(self, interp, target, args, kwargs, st, node):
+        if isinstance(target, Bound) and target.obj == LPORT and target.name in ('readline', 'read'):
+            k = sum(1 for e in st.effects if is_lport_call(e, ('readline', 'read')))
+            return [(Opaque('reply#%d' % k, (), 'bytes'),
+                     st.effect(Effect('call', target, tuple(args), node.lineno,
+                                      interp.cur.qualname)))]
+        return None
+
+
+def is_lport_call(e, names=PORT_IO):
+    return e.kind == 'call' and isinstance(e.target, Bound) and e.target.obj == LPORT and \
+        e.target.name in names
